@@ -274,7 +274,7 @@ def wz_outcome(adapter, path, method):
     from werkzeug.routing.exceptions import RequestRedirect
 
     try:
-        rule, args = adapter.match(path, method=method, return_rule=True)
+        rule, args = adapter.match(path, method=method, return_rule=True) if path is not None else adapter.match(return_rule=True)
         return ("match", rule.endpoint, tuple(sorted(args.items(), key=lambda kv: kv[0]))), None
     except RequestRedirect as e:
         return ("redirect", unquote(urlsplit(e.new_url).path)), None
@@ -392,9 +392,70 @@ def check_map(rec, spy, rng, cfg, rules, strict, merge):
                     if not (need <= methods405) or not (methods405 <= upper):
                         key = "C03/405-method-list" + ("-after-validation-error" if ve else "")
                         rec.violation(key, f"rules {strs} path {p!r} {method}: 405 lists {sorted(methods405)}, admitting rules need {sorted(need)}, upper bound {sorted(upper)}", case, monitor="reference-matcher")
+        if order == orders[0]:
+            other_entry_points(rec, ad, paths, base_case, strs)
     if len(rec.samples) < 4:
         rec.sample({"rules": strs, "methods": [r["methods"] for r in rules], "strict": strict, "merge": merge,
                     "orders": len(orders), "paths": paths[:8]})
+
+
+def other_entry_points(rec, ad, paths, base_case, strs):
+    """The same map asked through its other entry points: an adapter made from a WSGI environ (bind_to_environ, the
+    path and method taken from the environ), test(), allowed_methods() and dispatch() tell the same story as match()."""
+    from werkzeug.exceptions import HTTPException, MethodNotAllowed
+    from werkzeug.routing.exceptions import RequestRedirect
+
+    m = ad.map
+    for p in paths:
+        pp = "/" + p.lstrip("/") if not p.startswith("/") else p
+        outcomes = {}
+        for method in METHODS:
+            outcomes[method] = wz_outcome(ad, p, method)
+        for method in METHODS[:2]:
+            rec.case()
+            rec.observe("environ_bound_matches")
+            case = dict(base_case, path=p, method=method, entry="bind_to_environ")
+            env = {"REQUEST_METHOD": method, "wsgi.url_scheme": "http", "SERVER_NAME": "h.com", "SERVER_PORT": "80", "HTTP_HOST": "h.com",
+                   "SCRIPT_NAME": "", "PATH_INFO": pp.encode("utf-8").decode("latin-1"), "QUERY_STRING": ""}
+            try:
+                got = wz_outcome(m.bind_to_environ(env), None, None)
+            except Exception as e:  # noqa: BLE001
+                rec.violation(f"C03/unexpected-exception:{type(e).__name__}", f"bind_to_environ: {e!r}", case, monitor="boundary")
+                continue
+            want = wz_outcome(ad, pp, method)
+            if got != want:
+                rec.violation("C03/environ-bound-adapter-differs", f"rules {strs} path {pp!r} {method}: bind_to_environ(...).match() gives {got!r}, bind(...).match(path, method) gives {want!r}", case, monitor="entry-points")
+                return
+        rec.case()
+        rec.observe("allowed_methods_calls")
+        case = dict(base_case, path=p, entry="allowed_methods")
+        try:
+            allowed = set(ad.allowed_methods(p))
+            tests = {method: ad.test(p, method) for method in METHODS}
+            disp = {}
+            for method in METHODS:
+                try:
+                    dr = ad.dispatch(lambda ep, args: (ep, tuple(sorted(args.items(), key=lambda kv: kv[0]))), p, method)
+                    disp[method] = ("redirect",) if isinstance(dr, RequestRedirect) else ("match",) + tuple(dr)  # dispatch returns the redirect as a response
+                except RequestRedirect:
+                    disp[method] = ("redirect",)
+                except HTTPException as e:
+                    disp[method] = ("405",) if isinstance(e, MethodNotAllowed) else ("404",)
+        except Exception as e:  # noqa: BLE001
+            rec.violation(f"C03/unexpected-exception:{type(e).__name__}", f"allowed_methods / test / dispatch: {e!r}", case, monitor="boundary")
+            continue
+        for method in METHODS:
+            (got, m405) = outcomes[method]
+            if tests[method] != (got[0] in ("match", "redirect")):  # a URL that is redirected "exists"
+                rec.violation("C03/test-disagrees-with-match", f"rules {strs} path {p!r} {method}: test() = {tests[method]}, match() gives {got!r}", case, monitor="entry-points")
+                return
+            if disp[method][0] != got[0] or (got[0] == "match" and disp[method][1:] != got[1:]):
+                rec.violation("C03/dispatch-disagrees-with-match", f"rules {strs} path {p!r} {method}: dispatch() gives {disp[method]!r}, match() gives {got!r}", case, monitor="entry-points")
+                return
+            # (a rule without a method set answers every method and contributes nothing to allowed_methods())
+            if got[0] == "405" and (method in allowed or (m405 or set()) != allowed):
+                rec.violation("C03/allowed-methods-disagrees-with-405", f"rules {strs} path {p!r} {method}: 405 lists {sorted(m405 or ())}, allowed_methods() = {sorted(allowed)}", case, monitor="entry-points")
+                return
 
 
 def _rule_json(r):
